@@ -2,6 +2,7 @@ package main
 
 import (
 	"fmt"
+	"sort"
 	"go/ast"
 	"go/types"
 	"strings"
@@ -27,6 +28,7 @@ func cdxFlow(c *Ctx) {
 	w := converterFlow(wr, n, map[string]bool{"Component": true})
 	r := readerFlow(rd, comp, map[string]bool{"Node": true}, nil)
 	roundTripPaths(c, R, "cdx-component", cdxNodeAttrs, w, r)
+	attributeIndependence(c, "cdx-component", cdxNodeAttrs, w, r, map[string]bool{"Id": true})
 
 	// external references: element-level flow relative to the loop variables
 	erW := loopVarOfType(wr, "ExternalReference")
@@ -195,7 +197,10 @@ func cdxTreeAssembly(c *Ctx, prop string) {
 // PURL ↔ PackageURL, CPE22/CPE23 ↔ CPE. The writer assigns the field inside the switch clause of
 // that identifier type, the reader stores the field under that type's key.
 func identifierSlots(c *Ctx, wr, rd *declInfo) {
-	const R = "round-trip-path"
+	identifierSlotsRule(c, "round-trip-path", wr, rd)
+}
+
+func identifierSlotsRule(c *Ctx, R string, wr, rd *declInfo) {
 	slots := []struct{ idConst, field string }{
 		{"SoftwareIdentifierType_PURL", "PackageURL"},
 		{"SoftwareIdentifierType_CPE23", "CPE"},
@@ -286,4 +291,85 @@ func identifierSlots(c *Ctx, wr, rd *declInfo) {
 		c.check(wOK && rOK, R, construct, c.P.Pos(wr.fd.Pos()), sl.idConst+" ↔ "+sl.field,
 			fmt.Sprintf("identifier type %s has no round-trip path through component field %s (written under its case clause: %v, read back under its key: %v)", sl.idConst, sl.field, wOK, rOK))
 	}
+}
+
+
+// attributeIndependence: what the reader stores into an attribute may depend only on native fields
+// that the writer derives from that very attribute. A dependence on another native field (the
+// nested components, a sibling attribute) makes the attribute's round trip depend on things the
+// attribute does not determine: whether a node reads back as a file would depend on whether it has
+// children.
+func attributeIndependence(c *Ctx, label string, attrs []string, w, r flowRel, exclude map[string]bool) {
+	const R = "reader-attribute-independence"
+	c.rule(R, "for every listed attribute a (identifiers generated from several fields excepted) every native field the reader's value of a depends on — by data or by an enclosing condition — is one the writer fills from a")
+	for _, a := range attrs {
+		if exclude[a] {
+			continue
+		}
+		var foreign []string
+		for g := range r[a] {
+			if !w[g][a] {
+				foreign = append(foreign, g)
+			}
+		}
+		sort.Strings(foreign)
+		construct := label + "#" + a
+		if len(r[a]) == 0 {
+			continue // reported by round-trip-path
+		}
+		c.check(len(foreign) == 0, R, construct, "-", a+" ← "+relString(r, a),
+			fmt.Sprintf("the reader's value of %s depends on the native field(s) %s, which the writer does not fill from %s: the attribute no longer round-trips on its own (its value after reading changes with those fields)", a, strings.Join(foreign, ", "), a))
+	}
+}
+
+
+// identityAttributePaths: C03 — "reading the output back returns nodes with the same identity
+// attributes: identifier, name, version, and the hashes and package identifiers both formats
+// support". The same field-flow relations as the round-trip rules of C01/C02, restricted to the
+// identity attributes.
+func identityAttributePaths(c *Ctx) {
+	const R = "identity-attribute-path"
+	c.rule(R, "for identifier, name, version, hashes and software identifiers there is a native field g such that the writer stores the attribute into g and the reader fills the attribute from g, in both formats; each software-identifier type CycloneDX carries is written to and read from its own component field")
+	identity := []string{"Id", "Name", "Version", "Hashes", "Identifiers"}
+	if wr, rd := c.decl(R, "serializers.(*CDX).nodeToComponent"), c.decl(R, "unserializers.(*CDX).componentToNode"); wr != nil && rd != nil {
+		n, comp := paramOfType(wr, "Node"), paramOfType(rd, "Component")
+		if n == nil || comp == nil {
+			c.undecided(R, "cdx-component#anchor", "-", "converter parameters not found")
+		} else {
+			w := converterFlow(wr, n, map[string]bool{"Component": true})
+			r := readerFlow(rd, comp, map[string]bool{"Node": true}, nil)
+			roundTripPaths(c, R, "cdx-component", identity, w, r)
+			identifierSlotsRule(c, R, wr, rd)
+		}
+	}
+	bp := c.decl(R, "serializers.(*SPDX23).buildPackages")
+	bf := c.decl(R, "serializers.buildFiles")
+	pn := c.decl(R, "unserializers.(*SPDX23).packageToNode")
+	fn := c.decl(R, "unserializers.(*SPDX23).fileToNode")
+	if bp == nil || bf == nil || pn == nil || fn == nil {
+		return
+	}
+	pkgOwners := map[string]bool{"Package": true, "Supplier": true, "Originator": true, "PackageExternalReference": true, "Checksum": true}
+	nodeOwners := map[string]bool{"Node": true, "Person": true, "ExternalReference": true}
+	if node := loopVarOfType(bp, "Node"); node != nil {
+		if p := paramOfType(pn, "Package"); p != nil {
+			wr := flattenSub(converterFlow(bp, node, pkgOwners), map[string]string{"Supplier": "PackageSupplier", "SupplierType": "PackageSupplier", "Originator": "PackageOriginator", "OriginatorType": "PackageOriginator",
+				"Category": "PackageExternalReferences", "RefType": "PackageExternalReferences", "Locator": "PackageExternalReferences", "ExternalRefComment": "PackageExternalReferences",
+				"Algorithm": "PackageChecksums", "Value": "PackageChecksums"})
+			rd := readerFlow(pn, p, nodeOwners, map[string]string{"Url": "ExternalReferences", "Type": "ExternalReferences", "Comment": "ExternalReferences", "IsOrg": "", "Email": ""})
+			roundTripPaths(c, R, "spdx-package", identity, wr, rd)
+		} else {
+			c.undecided(R, "spdx-package#anchor", "-", "packageToNode parameter not found")
+		}
+	} else {
+		c.undecided(R, "spdx-package#anchor", "-", "node loop of buildPackages not found")
+	}
+	if node := loopVarOfType(bf, "Node"); node != nil {
+		if p := paramOfType(fn, "File"); p != nil {
+			wr := flattenSub(converterFlow(bf, node, map[string]bool{"File": true, "Checksum": true}), map[string]string{"Algorithm": "Checksums", "Value": "Checksums"})
+			rd := readerFlow(fn, p, nodeOwners, nil)
+			roundTripPaths(c, R, "spdx-file", []string{"Id", "Name", "Hashes"}, wr, rd)
+		}
+	}
+	c.floor(R, 16, "5 component, 3 identifier-slot, 5 package and 3 file attributes")
 }
